@@ -2,5 +2,7 @@ SPECIFICATION LSpec
 CONSTANTS
   Sessions = {"cli", "acc", "bkl"}
   MaxTraffic = 3
+  OwnC = FALSE
+  OwnL = FALSE
 PROPERTIES ReleasedHeld
 CHECK_DEADLOCK FALSE
